@@ -190,6 +190,34 @@ def _prefix_chunk(chunk):
     return len(chunk), nt, fails
 
 
+def _key_chunk(chunk):
+    """the facts about OptionKey that the merge contracts assume: evolve(subproject=s) sets the subproject and nothing
+    else, is injective on global keys, as_root() is evolve(subproject=''), equal keys are interchangeable as dict keys"""
+    from mesonbuild.options import OptionKey
+    from mesonbuild.utils.universal import MachineChoice
+    fails, nt = [], 0
+    names = ['opt', 'prefix', 'cpp_std', 'python.purelibdir', 'b_lto']
+    subs = [None, '', 'sub', 'other']
+    keys = [OptionKey(n, s_, m) for n in names for s_ in subs for m in MachineChoice]
+    for s_ in chunk:
+        imgs = {}
+        for k in keys:
+            nt += 1
+            e = k.evolve(subproject=s_)
+            if (e.subproject, e.name, e.machine) != (s_, k.name, k.machine):
+                fails.append({'case': {'key': str(k), 'subproject': s_}, 'stage': 'OptionKey', 'detail': f'evolve gives {e!r}'})
+            if k.subproject is None:
+                if e in imgs and imgs[e] != k:
+                    fails.append({'case': {'key': str(k), 'subproject': s_}, 'stage': 'OptionKey', 'detail': f'evolve is not injective on global keys: {imgs[e]!r} and {k!r}'})
+                imgs[e] = k
+            if k.as_root() != k.evolve(subproject=''):
+                fails.append({'case': {'key': str(k), 'subproject': s_}, 'stage': 'OptionKey', 'detail': 'as_root() differs from evolve(subproject="")'})
+            d = {k: 1}
+            if OptionKey(k.name, k.subproject, k.machine) not in d or (e != k and e in d):
+                fails.append({'case': {'key': str(k), 'subproject': s_}, 'stage': 'OptionKey', 'detail': 'dict lookup does not follow (name, subproject, machine) equality'})
+    return len(chunk), nt, fails
+
+
 def run(REG, tier, seed, jobs):
     parts = []
     kinds = ['integer', 'combo', 'string', 'boolean', 'feature']
@@ -209,6 +237,9 @@ def run(REG, tier, seed, jobs):
     ev, nt, fails = pmap(_valid_chunk, chunked(iter(cases), 16), jobs)
     parts.append({'name': 'C07/bounded/invalid-rejected-stored-valid', 'function': 'OptionStore.set_option / UserOption.set_value', 'bound': f'{len(kinds)} option kinds x {len(values)} candidate values of all python types',
                   'evaluations': ev, 'distinct_nontrivial': nt, 'rule': 'every case is distinct', 'exhaustive': True, 'failures': fails})
+    ev, nt, fails = pmap(_key_chunk, chunked(iter([None, '', 'sub', 'other', 'x y']), 1), jobs)
+    parts.append({'name': 'C07/bounded/OptionKey-facts-assumed-by-the-merge-contracts', 'function': 'OptionKey.evolve / as_root / __eq__ / __hash__', 'bound': '40 keys (5 names x 4 subprojects x 2 machines) x 5 target subprojects',
+                  'evaluations': ev, 'distinct_nontrivial': nt, 'rule': 'every key', 'exhaustive': True, 'failures': fails})
     spell = [None, '/usr', '/usr/', '/usr/local', '/usr/local/', '/opt', '/opt/x/', '/']
     cases = [(a, b, c, e) for a in spell for b in spell for c in spell for e in (False, True)]
     ev, nt, fails = pmap(_prefix_chunk, chunked(iter(cases), 64), jobs)
